@@ -496,6 +496,7 @@ func (f *Frame) appendOp(instr *ssa.Call, cc *ssa.CallCommon, reach string, st *
 	}
 	f.eng.note("append modelled as always allocating a fresh backing array (no in-place growth aliasing)")
 	base := f.newObj(st, "append")
+	f.ctx.Fact(fmt.Sprintf("(<= (objtype (pobj %s)) 0)", base))
 	r := f.ctx.Fresh(instr.Name(), "Slice")
 	f.ctx.Fact(fmt.Sprintf("(and (= (sbase %s) %s) (= (soff %s) 0) (= (slen_ %s) (+ (slen_ %s) %s)) (>= (scap %s) (slen_ %s)))", r, base, r, r, s, tlen, r, r))
 	for _, lf := range leaves(et) {
